@@ -90,7 +90,18 @@ def lean_closure(module):
     return seen
 
 
+def prop_modules(prop):
+    """the property's theorem module plus, when present, its source-pin module (Props/PinsCxx.lean)"""
+    mods = [prop.lean_module]
+    pins = f"NxsModel.Props.Pins{prop.id}"
+    if os.path.exists(os.path.join(LEAN, *pins.split(".")) + ".lean"):
+        mods.append(pins)
+    return mods
+
+
 def theorem_names(module):
+    if isinstance(module, (list, tuple)):
+        return [n for m in module for n in theorem_names(m)]
     path = os.path.join(LEAN, *module.split(".")) + ".lean"
     src = strip_comments(open(path, encoding="utf-8").read())
     ns = re.findall(r"^namespace\s+(\S+)", src, flags=re.M)
@@ -100,6 +111,15 @@ def theorem_names(module):
 
 def audit(module):
     """(ok, report): forbidden tokens in the closure's sources; axioms of every theorem of module"""
+    if isinstance(module, (list, tuple)):
+        ok, rep = True, {"theorems": [], "axioms": {}, "problems": []}
+        for m in module:
+            o, r = audit(m)
+            ok = ok and o
+            rep["theorems"] += r["theorems"]
+            rep["axioms"].update(r["axioms"])
+            rep["problems"] += r["problems"]
+        return ok, rep
     problems = []
     for m, path in lean_closure(module).items():
         body = strip_comments(open(path, encoding="utf-8").read())
@@ -260,13 +280,20 @@ def run_check(prop: Prop, tier: str, seed: int) -> int:
     # 1 translate + 2 build + 3 audit (serialised across concurrent checks)
     with Lock():
         tr = translate.run(REPO)
-        missing = [m for v in tr.values() for m in v["missing"]]
+        # an extraction site that is gone concerns the properties whose theorems import that generated module
+        # (Bool shape facts become `false`, so the module and the driver still build for everybody else)
+        mods = prop_modules(prop)
+        closure = {m for mod in mods for m in lean_closure(mod)}
+        missing = [m for k, v in tr.items() for m in v["missing"] if f"NxsModel.Gen.{k}" in closure]
+        others = [m for k, v in tr.items() for m in v["missing"] if f"NxsModel.Gen.{k}" not in closure]
         cov["translator"] = {k: ("changed" if v["changed"] else "same") for k, v in tr.items()}
+        if others:
+            cov["translator_sites_missing_elsewhere"] = [m.split("  --")[0].strip() for m in others]
         if missing:
             broken.append(("translate", "extraction sites not found: " + "; ".join(missing)))
         if tier == "thorough":
             # rebuild the property's own modules from clean
-            for m in lean_closure(prop.lean_module):
+            for m in closure:
                 if ".Props." in m or ".Lemmas." in m:
                     for ext in ("olean", "ilean", "olean.hash", "ilean.hash", "trace", "c", "c.hash"):
                         p = os.path.join(LEAN, ".lake", "build", "lib", "lean", *m.split(".")) + "." + ext
@@ -275,26 +302,26 @@ def run_check(prop: Prop, tier: str, seed: int) -> int:
         ok_model, msg_model = lake_build(["nxsdriver"])
         if not ok_model:
             broken.append(("build-model", msg_model))
-        ok_thm, msg_thm = lake_build([prop.lean_module])
+        ok_thm, msg_thm = lake_build(mods)
         if not ok_thm:
             broken.append(("build-theorems", msg_thm))
         aud = {"theorems": [], "axioms": {}, "problems": []}
         if ok_thm:
-            ok_a, aud = audit(prop.lean_module)
+            ok_a, aud = audit(mods)
             if not ok_a:
                 broken.append(("audit", "; ".join(aud["problems"])))
             if tier == "thorough":
-                rc, out, err = run_cmd(["lake", "env", "leanchecker", prop.lean_module], cwd=LEAN, timeout=3600)
+                rc, out, err = run_cmd(["lake", "env", "leanchecker"] + mods, cwd=LEAN, timeout=3600)
                 cov["leanchecker"] = "ok" if rc == 0 else f"rc={rc} {(out + err)[-300:]}"
                 if rc != 0:
                     broken.append(("leanchecker", (out + err)[-400:]))
-    n_thm = len(aud["theorems"]) if ok_thm else len(theorem_names(prop.lean_module))
+    n_thm = len(aud["theorems"]) if ok_thm else len(theorem_names(mods))
     cov["obligations"] = n_thm
     cov["discharged"] = n_thm if (ok_thm and not any(k in ("audit", "leanchecker") for k, _ in broken)) else 0
-    cov["theorems"] = aud["theorems"] if ok_thm else theorem_names(prop.lean_module)
+    cov["theorems"] = aud["theorems"] if ok_thm else theorem_names(mods)
     cov["axioms_used"] = sorted({a for v in aud["axioms"].values() for a in v})
-    cov["checker_cmd"] = f"lake build {prop.lean_module} && lake env lean <#print axioms of every theorem>" + \
-        (f" && lake env leanchecker {prop.lean_module}" if tier == "thorough" else "")
+    cov["checker_cmd"] = f"lake build {' '.join(mods)} && lake env lean <#print axioms of every theorem>" + \
+        (f" && lake env leanchecker {' '.join(mods)}" if tier == "thorough" else "")
     cov["trusted_base"] = prop.trusted_base
 
     # 4 correspondence
@@ -368,6 +395,29 @@ def run_check(prop: Prop, tier: str, seed: int) -> int:
         if v:
             v.setdefault("case", l)
             violations.append(v)
+    if not broken and tier != "thorough" and stuck < 3:
+        # quick tier with nothing broken: the independent oracle still judges a time-boxed random sample of the
+        # cases (a change under which model and code move together, or which the translator reads into both the
+        # model and the specification, is seen only by the oracle)
+        t_or = time.time()
+        sample = [l for l in lines if l not in seen]
+        random.Random(seed * 7919 + 13).shuffle(sample)
+        budget = float(os.environ.get("VERIF_QUICK_ORACLE_S", "6"))
+        for l in sample[:400]:
+            if time.time() - t_or > budget:
+                break
+            seen.add(l)
+            oracle_runs += 1
+            try:
+                v = prop.oracle(l)
+            except Exception as e:
+                v = {"key": "oracle-exception", "what": f"oracle raised {type(e).__name__}: {e}", "case": l}
+            if v:
+                v.setdefault("case", l)
+                violations.append(v)
+                if len(violations) >= 6:
+                    break
+        cov["quick_oracle_sample"] = oracle_runs
     if broken or tier == "thorough":
         stuck_lines = [l for l, o in zip(lines, impl_out)
                        if any(k in o for k in ("RealTimeLimit", "TimeLimit", "Spin", "Deadlock", "harness-exc"))]
